@@ -88,7 +88,11 @@ CHECKS = {
     "C07": {
         "trace_module": "Trace_FilterSync",
         "mc": [mc_cp("a", True), mc_cp("b", False), mc_cp("c", False), mc_cp("d", False), mc_cp("e", False), mc_cp("f", False)],
-        "drivers": [fsync("cp", 40, 300, 4, 10), fsync("pump", 6, 40, 1, 3)],
+        "drivers": [fsync("cp", 40, 300, 4, 10), fsync("pump", 6, 40, 1, 3),
+                    # specification -> implementation: behaviours of MC_CheckPointsR (tlc -simulate) on a real chain
+                    {"name": "filtersync-cpreplay", "driver": "filtersync", "args": ["mode=cpreplay"], "trace_module": "Trace_FilterSync",
+                     "gen": {"module": "MC_CheckPointsR", "cfg": "MC_CheckPointsR.cfg", "num": {"quick": 400, "thorough": 4000}, "depth": 28},
+                     "n": {"quick": 700, "thorough": 7000}, "procs": {"quick": 2, "thorough": 6}}],
         "assumptions": COMMON_ASSUMPTIONS + [
             "check point values are identified with block ids (SimChain gives every block a unique filter hash); invented values are negative ids shared by colluding liars",
             "a banned peer is disconnected by the network layer before its next message (enforce_bans)",
